@@ -405,6 +405,20 @@ func (c *jrCtx) getterCall(e ast.Expr) (getter, term string, ok bool) {
 			return "val." + sel.Sel.Name, tm, true
 		}
 	}
+	// G(val.Get("a"), "b"): a getter applied to a member of val
+	if len(call.Args) == 2 {
+		if in, isIn := call.Args[0].(*ast.CallExpr); isIn && len(in.Args) == 1 {
+			if isel, ok := in.Fun.(*ast.SelectorExpr); ok && c.t.src(isel.X) == c.val && isel.Sel.Name == "Get" {
+				l1, ok1 := in.Args[0].(*ast.BasicLit)
+				l2, ok2 := call.Args[1].(*ast.BasicLit)
+				if ok1 && ok2 && l1.Kind == token.STRING && l2.Kind == token.STRING {
+					a, _ := strconv.Unquote(l1.Value)
+					b, _ := strconv.Unquote(l2.Value)
+					return fn, a + "." + b, true
+				}
+			}
+		}
+	}
 	if len(call.Args) >= 1 && c.t.src(call.Args[0]) == c.val {
 		switch {
 		case len(call.Args) == 2:
